@@ -115,15 +115,23 @@ Definition model_hash (m : model) : Z :=
 Definition model_members (m : model) : list (str * json) :=
   match to_json true m with JObj o => o | _ => [] end.
 
-(* BaseModel.replace: fields = model_dump(mode="json", by_alias=False, exclude_unset=True);
-   fields |= updates; return cls(fields...).  [tag_was_set]: the instance (or one nested in
-   it) was validated from tagged JSON, so "model" is in its fields_set and the dump contains
-   the key "model" (the field NAME, by_alias=False), which the constructor rejects as an
-   extra field.  Otherwise the dump is the untagged form of the set fields and the updates
-   win over it (dict update = lookup finds the update first). *)
-Definition replace (lax : json -> option Z) (tag_was_set : bool) (m : model) (upd : list (str * json)) : vres model :=
-  if tag_was_set then bad
+(* BaseModel.replace: fields = model_dump(mode="json", by_alias=..., exclude_unset=True);
+   fields |= updates; return cls(fields...).
+   [by_alias]: the flag of that dump - False in the pinned tree, True since the fix commit
+   recorded in known_findings.json.  [tag_was_set]: the instance (or one nested in it) was
+   validated from tagged JSON, so "model" is in its fields_set and the dump contains the tag:
+   under the key "model" (the field NAME) when by_alias is False, which the constructor
+   rejects as an extra field; under its alias "__model__" when by_alias is True, which the
+   constructor accepts.  The updates win over the dump (dict update = lookup finds the
+   update first). *)
+Definition replace_dump (by_alias : bool) (lax : json -> option Z) (tag_was_set : bool) (m : model)
+           (upd : list (str * json)) : vres model :=
+  if tag_was_set && negb by_alias then bad
   else match of_json_as lax (class_name m) (JObj (upd ++ model_members m)) with
        | Some r => r
        | None => bad
        end.
+
+(* the current code / the pinned code *)
+Definition replace := replace_dump true.
+Definition replace_pinned := replace_dump false.
